@@ -314,6 +314,41 @@ def check_atomic(chk, prog):
     chk.extra["atomic_pairs"] = n_pairs
 
 
+def check_atomic_decl(chk, prog):
+    """declarations that are committed during execution (a rule joins its ruleset, a function joins the function table): the same
+    validate-before-commit discipline, per function"""
+    R = chk.rule("R-ATOMIC-DECL", "in the functions of crate egglog that add to EGraph.rulesets or EGraph.functions while a command executes (add_rule, declare_function, ...): the write "
+                 "to the declaration map is not followed by a reachable error exit of the same function — in particular the duplicate-name rejection tests the map before writing "
+                 "it (entry/contains), it does not insert first and complain afterwards")
+    n = 0
+    for f in prog.lib_fns(["egglog"]):
+        if f.kind == "closure" or not f.name.startswith("egglog::EGraph::") or not f.locals[0].startswith("core::result::Result"):
+            continue
+        commits = [(bb, idx, df) for (bb, idx, df) in direct_commits(prog, f) if df[0] == "egglog::EGraph" and df[1] in ("rulesets", "functions")]
+        if not commits:
+            continue
+        # only functions that ADD a declaration: they build the entry they store (a rule id from the backend / a Function record);
+        # functions that take the map out and put it back, or tear a temporary ruleset down, are not declarations
+        adds = any(c.p.endswith(("EGraph::new_rule", "RuleBuilder::build", "BackendRule::build", "EGraph::add_table")) or c.p.endswith("::build") and "Rule" in c.p for c in f.calls) \
+            and not any(c.p.endswith(("mem::take", "::swap_remove", "::shift_remove")) for c in f.calls)
+        if not adds:
+            continue
+        n += 1
+        exits = error_exits(f)
+        bad = []
+        for (bb, idx, df) in commits:
+            for (xb, kind, src) in exits:
+                if xb in f.reach(bb) and _feasible(f, bb, xb):
+                    # a later write to the same field on the way compensates (remove on the error path)
+                    comp = any(df2 == df and cb != bb and cb in f.reach(bb) and (xb in f.reach(cb) or cb == xb) for (cb, cidx, df2) in commits)
+                    if not comp:
+                        bad.append((df[1], _line(f, bb), _line(f, xb)))
+        chk.judge(not bad, R, f"{f.name}:commit-then-fail", "the declaration map is written only after the last check that can reject the command",
+                  f"{f.name.rsplit('::', 1)[-1]} writes EGraph.{bad[0][0] if bad else ''} (line {bad[0][1] if bad else ''}) and can still return an error afterwards "
+                  f"(line {bad[0][2] if bad else ''}): the rejected command has already replaced / added the entry", f.loc)
+    chk.floor(R, n, 2, "execution-phase declaration functions (add_rule, declare_function)")
+
+
 def _base_local(f, place):
     """follow `&local` single definitions: the local whose discriminant is really tested"""
     if [e for e in place[1] if not isinstance(e, str)]:
@@ -385,3 +420,4 @@ def run(chk, prog, tier):
         "returning a callee's Err as a plain value (no `?`) after a commit is not seen as an error exit",
     ]
     check_atomic(chk, prog)
+    check_atomic_decl(chk, prog)
